@@ -152,7 +152,8 @@ struct pcent { uint64_t pc; uint32_t n, n_nest; uint32_t regions; uint32_t kinds
 struct pctab { struct pcent *e; uint32_t mask; uint32_t used; uint64_t dropped; };
 
 struct samp { uint64_t pc; unsigned long w0, w1, w2; int depth, kind, region; };
-#define NSAMP 32
+/* sample slots: [0 .. 2*R_NR) depth-1 traps by (region, nesting>0); then deeper levels; then async */
+#define NSAMP (2 * R_NR + 8 + 4)
 
 enum { ROLE_VICTIM, ROLE_READER, ROLE_UPDATER, ROLE_EPISODE };
 enum { K_TRAP = 0, K_ASYNC = 1 };
@@ -198,7 +199,7 @@ struct thr {
 	int in_section;
 	int exited;
 	struct samp samp[NSAMP];
-	int nsamp;
+	uint32_t samp_cnt[NSAMP];
 	int pv_set;
 	char pv_key[64];
 	char pv_msg[600];
@@ -512,12 +513,20 @@ static void handler_body(struct thr *t, int kind, ucontext_t *uc)
 		t->h_nest_pos++;
 	if (region)
 		t->h_region++;
-	if (t->nsamp < NSAMP && (nest_pos || region) &&
-	    (t->nsamp == 0 || t->samp[t->nsamp - 1].region != region || t->samp[t->nsamp - 1].depth != d ||
-	     (dice >> 7) == 5)) {
-		struct samp *s = &t->samp[t->nsamp];
-		s->pc = pc; s->w0 = w0; s->w1 = w1; s->w2 = w2; s->depth = d; s->kind = kind; s->region = region;
-		t->nsamp++;
+	if (nest_pos || region) {
+		int slot;
+		if (kind == K_TRAP && d == 1)
+			slot = 2 * region + nest_pos;
+		else if (d >= 2)
+			slot = 2 * R_NR + ((d - 2) & 3) * 2 + kind;
+		else
+			slot = 2 * R_NR + 8 + nest_pos * 2 + (region ? 1 : 0);
+		struct samp *s = &t->samp[slot];
+		if (!s->depth || (t->samp_cnt[slot] < 4000 && (dice >> 6) == 9)) {
+			s->pc = pc; s->w0 = w0; s->w1 = w1; s->w2 = w2; s->kind = kind; s->region = region;
+			s->depth = d;
+		}
+		t->samp_cnt[slot]++;
 	}
 	VP_STORE(t->hdepth, d - 1);
 }
@@ -1515,8 +1524,10 @@ static void report(void)
 			continue;
 		for (int i = 0; i < nthr && !done; i++) {
 			struct thr *t = &thr[i];
-			for (int k = 0; k < t->nsamp && !done; k++) {
+			for (int k = 0; k < NSAMP && !done; k++) {
 				struct samp *sp = &t->samp[k];
+				if (!sp->depth)
+					continue;
 				char name[128];
 				uint64_t off;
 				int lib;
